@@ -160,8 +160,8 @@ def gen_case(rnd, spec):
                 ops += [["adopt", small["id"]], ["sleep", 0.06]]
             gen["payloads"].append({"id": new("chatty"), "flavour": fl, "when": "queued", "program": ops + [["beat", 0.02, None]], "cleanup": {"kind": "none"}})
     # a service that cobald ships (FactoryPool, trio flavour): the child factory it calls is part of that trio payload
-    if rnd.random() < 0.2:
-        gen["services"].append({"id": new("shipped"), "flavour": "trio", "program": [], "shipped": "FactoryPool", "create": rnd.choice(["before", "before", "after"]),
+    if rnd.random() < 0.3:
+        gen["services"].append({"id": new("shipped"), "flavour": "trio", "program": [], "shipped": rnd.choice(["FactoryPool", "Stepwise", "Linear", "Buffer"]), "create": rnd.choice(["before", "before", "after"]),
                                 "interval": rnd.choice([0.02, 0.05]), "demand": rnd.choice([2, 5])})
         if gen["services"][-1]["create"] == "after":
             script.append(["service", gen["services"][-1]["id"]])
